@@ -29,6 +29,9 @@ import (
 
 const (
 	minKeepAlive = 30
+
+	// How long Disconnect waits for the outgoing buffer to be written out.
+	disconnectFlushTimeout = time.Second
 )
 
 // Client is a library implementation of the MQTT client that, as best it can, complies
@@ -267,7 +270,14 @@ func (cln *Client) Ping(onComplete OnCompleteFunc) error {
 // terminates after the sending of the DISCONNECT message.
 func (cln *Client) Disconnect() {
 	msg := message.NewDisconnectMessage()
-	writeMessage(cln.svc.conn, msg)
+
+	// The DISCONNECT goes through the outgoing buffer like every other packet.
+	// Written to the socket directly it could land between two chunks of a packet
+	// the sender goroutine is in the middle of writing.
+	if _, err := cln.svc.writeMessage(msg); err == nil {
+		cln.svc.flush(disconnectFlushTimeout)
+	}
+
 	cln.svc.stop()
 }
 
